@@ -6,6 +6,23 @@ from msgcheck import *
 import c01
 
 
+def set_choice_ops(s, lv, t, path="."):
+    """(getfc op, the getf op of the same field, [(choice name, bit index)]) for every set-typed field in the tree"""
+    out = []
+    for k, f in enumerate(msgdrv.nonconst_fields(s, lv)):
+        td = s.types.get(f.type_name)
+        while td is not None and td.kind == "ref":
+            td = s.types.get(td.ref)
+        if td is not None and td.kind == "set":
+            r = s.resolve(f.type_name)
+            out.append(("getfc %s %d" % (path, k), "getf %s %d %s" % (path, k, r[1]), [(n, int(i)) for n, i in td.values]))
+    for gi, g in enumerate(lv.groups):
+        for ei, e in enumerate(t["groups"][gi]):
+            sub = ("%d:%d" % (gi, ei)) if path == "." else (path + "/%d:%d" % (gi, ei))
+            out += set_choice_ops(s, g, e, sub)
+    return out
+
+
 def run(res, replay=None, inflate=False):
     rng = SplitMix64(res.seed + (3 if inflate else 0))
     res.rule = ("random accepted schemas x images produced by the reference encoder Msg.enc_message (independent of the "
@@ -67,12 +84,19 @@ def run(res, replay=None, inflate=False):
                 continue
             buf = pre + img + post
             script = ["base %d" % len(pre), "size"] + (["ctrav"] if inflate else []) + decode_script(s, m, vtree_as_tree(v))
+            # choice getters of set fields (name-based visit): every declared choice with its own bit of the raw value
+            choice_exp = {}
+            for (cop, gop, choices) in set_choice_ops(s, m, vtree_as_tree(v)):
+                if gop in script:
+                    script.append(cop)
+                    choice_exp[cop] = (script.index(gop), choices)
             expect = {}
             expected_field_values(s, m, lay["level"], v, ".", s.big_endian, expect)
             expect["size"] = str(len(img))
             jobs.append((m, v, buf, script, expect, len(mlines), len(ilines)))
-            mlines += [model_msg_line(s, m), "buf " + hx(buf)] + script
+            mlines += [model_msg_line(s, m), "buf " + hx(buf)] + [x if not x.startswith("getfc") else "size" for x in script]
             ilines += ["use " + m.name, "buf " + hx(buf)] + script
+            jobs[-1] = jobs[-1] + (choice_exp,)
         mout = model.run(mlines)
         for (cxx, std), exe in mc.exes.items():
             rc, iout, err = run_impl(exe, ilines)
@@ -81,7 +105,7 @@ def run(res, replay=None, inflate=False):
                 res.violation("driver-crash", "generated driver crashed (%s %s): %s" % (cxx, std, err[-300:]),
                               {"schema_xml": mc.xml, "stderr": err[-2000:]})
                 continue
-            for (m, v, buf, script, expect, mo, io) in jobs:
+            for (m, v, buf, script, expect, mo, io, choice_exp) in jobs:
                 nontriv = any(g["entries"] for g in v["groups"]) or any(v["data"])
                 res.count((s.package, m.name, hx(buf)[:48], len(buf), cxx, std), nontriv)
                 for j, op in enumerate(script):
@@ -91,6 +115,11 @@ def run(res, replay=None, inflate=False):
                         b2 = b2.partition(" | ")[0]
                     e = expect.get(op)
                     bad = None
+                    if op in choice_exp:
+                        gi_, choices = choice_exp[op]
+                        raw = int(mout[mo + 2 + gi_]) & ((1 << 64) - 1)
+                        e = ",".join("%s:%d" % (n, (raw >> i) & 1) for n, i in choices)
+                        a = e
                     if e is not None and a != e:
                         bad = ("model-vs-encoder", "model getter `%s` = %s but the encoder placed %s" % (op, a, e))
                     elif e is not None and b2 != e:
